@@ -8,6 +8,9 @@ pub enum Ty {
     I(usize),
     Key,
     Arr(usize),
+    Bool,
+    /// a padding-free nested `NoUninit` struct: its members in declaration order
+    Nested(Vec<Ty>),
 }
 
 impl Ty {
@@ -17,10 +20,24 @@ impl Ty {
             Ty::I(w) => format!("i{}", w * 8),
             Ty::Key => "key".into(),
             Ty::Arr(n) => format!("a{n}"),
+            Ty::Bool => "bool".into(),
+            Ty::Nested(ts) => format!("n({})", ts.iter().map(|t| t.name()).collect::<Vec<_>>().join("+")),
         }
     }
     pub fn parse(s: &str) -> Option<Ty> {
+        if let Some(inner) = s.strip_prefix("n(").and_then(|r| r.strip_suffix(')')) {
+            if inner.is_empty() {
+                return Some(Ty::Nested(vec![]));
+            }
+            let parts: Option<Vec<Ty>> = inner.split('+').map(Ty::parse).collect();
+            let parts = parts?;
+            if parts.iter().any(|t| matches!(t, Ty::Nested(_))) {
+                return None;
+            }
+            return Some(Ty::Nested(parts));
+        }
         Some(match s {
+            "bool" => Ty::Bool,
             "u8" => Ty::U(1),
             "u16" => Ty::U(2),
             "u32" => Ty::U(4),
@@ -51,6 +68,8 @@ pub enum Val {
     I(usize, i128),
     Key([u8; 32]),
     Arr(Vec<u8>),
+    Bool(bool),
+    Nested(Vec<Val>),
 }
 
 impl Val {
@@ -84,6 +103,22 @@ impl Val {
                 let b = hx_common::unhex(tok)?;
                 (b.len() == *n).then_some(Val::Arr(b))
             }
+            Ty::Bool => match tok {
+                "true" => Some(Val::Bool(true)),
+                "false" => Some(Val::Bool(false)),
+                _ => None,
+            },
+            Ty::Nested(ts) => {
+                if ts.is_empty() {
+                    return (tok == "-").then(|| Val::Nested(vec![]));
+                }
+                let toks: Vec<&str> = tok.split('+').collect();
+                if toks.len() != ts.len() {
+                    return None;
+                }
+                let vs: Option<Vec<Val>> = ts.iter().zip(toks).map(|(t, s)| Val::parse(t, s)).collect();
+                Some(Val::Nested(vs?))
+            }
         }
     }
     pub fn show(&self) -> String {
@@ -92,6 +127,14 @@ impl Val {
             Val::I(_, v) => v.to_string(),
             Val::Key(k) => hx_common::hex(k),
             Val::Arr(b) => hx_common::hex(b),
+            Val::Bool(b) => b.to_string(),
+            Val::Nested(vs) => {
+                if vs.is_empty() {
+                    "-".into()
+                } else {
+                    vs.iter().map(|v| v.show()).collect::<Vec<_>>().join("+")
+                }
+            }
         }
     }
     /// Independent encoding used by the property oracle: plain little-endian bytes.
@@ -101,6 +144,8 @@ impl Val {
             Val::I(w, v) => v.to_le_bytes()[..*w].to_vec(),
             Val::Key(k) => k.to_vec(),
             Val::Arr(b) => b.clone(),
+            Val::Bool(b) => vec![*b as u8],
+            Val::Nested(vs) => vs.iter().flat_map(|v| v.le_bytes()).collect(),
         }
     }
 }
@@ -165,6 +210,97 @@ impl<const N: usize> FieldT for [u8; N] {
     }
 }
 
+impl FieldT for bool {
+    fn ty() -> Ty {
+        Ty::Bool
+    }
+    fn from_val(v: &Val) -> Option<Self> {
+        match v {
+            Val::Bool(b) => Some(*b),
+            _ => None,
+        }
+    }
+    fn to_val(&self) -> Val {
+        Val::Bool(*self)
+    }
+}
+/// `PackedValue<T>` encodes exactly like `T` (align-1 wrapper).
+impl<T: FieldT + Copy> FieldT for PackedValue<T> {
+    fn ty() -> Ty {
+        T::ty()
+    }
+    fn from_val(v: &Val) -> Option<Self> {
+        Some(PackedValue(T::from_val(v)?))
+    }
+    fn to_val(&self) -> Val {
+        let inner: T = self.0;
+        inner.to_val()
+    }
+}
+
+/// Nested padding-free `NoUninit` structs used as single seed fields.
+#[derive(Clone, Copy, Debug, NoUninit)]
+#[repr(C)]
+pub struct Inner {
+    pub a: u32,
+    pub b: u16,
+    pub c: u16,
+}
+#[derive(Clone, Copy, Debug, NoUninit)]
+#[repr(C, packed)]
+pub struct InnerP {
+    pub a: u8,
+    pub b: u64,
+    pub c: i32,
+}
+#[derive(Clone, Copy, Debug, NoUninit)]
+#[repr(C)]
+pub struct Zst;
+
+impl FieldT for Inner {
+    fn ty() -> Ty {
+        Ty::Nested(vec![Ty::U(4), Ty::U(2), Ty::U(2)])
+    }
+    fn from_val(v: &Val) -> Option<Self> {
+        match v {
+            Val::Nested(p) if p.len() == 3 => Some(Inner { a: u32::from_val(&p[0])?, b: u16::from_val(&p[1])?, c: u16::from_val(&p[2])? }),
+            _ => None,
+        }
+    }
+    fn to_val(&self) -> Val {
+        Val::Nested(vec![self.a.to_val(), self.b.to_val(), self.c.to_val()])
+    }
+}
+impl FieldT for InnerP {
+    fn ty() -> Ty {
+        Ty::Nested(vec![Ty::U(1), Ty::U(8), Ty::I(4)])
+    }
+    fn from_val(v: &Val) -> Option<Self> {
+        match v {
+            Val::Nested(p) if p.len() == 3 => Some(InnerP { a: u8::from_val(&p[0])?, b: u64::from_val(&p[1])?, c: i32::from_val(&p[2])? }),
+            _ => None,
+        }
+    }
+    fn to_val(&self) -> Val {
+        let (a, b, c) = (self.a, self.b, self.c);
+        Val::Nested(vec![a.to_val(), b.to_val(), c.to_val()])
+    }
+}
+impl FieldT for Zst {
+    fn ty() -> Ty {
+        Ty::Nested(vec![])
+    }
+    fn from_val(v: &Val) -> Option<Self> {
+        match v {
+            Val::Nested(p) if p.is_empty() => Some(Zst),
+            _ => None,
+        }
+    }
+    fn to_val(&self) -> Val {
+        Val::Nested(vec![])
+    }
+}
+
 #[derive(Clone, Debug, PartialEq, Eq)]
 pub struct Shape {
     pub sid: usize,
@@ -191,6 +327,7 @@ impl Cool {
     pub const DISC: &'static [u8] = b"market";
 }
 pub const LONG_CONST: &[u8] = &[120u8; 33];
+pub const CONST32: &[u8] = &[7u8; 32];
 
 pub trait StructVisitor {
     type Out;
@@ -277,7 +414,37 @@ seed_structs! {
                     f8: u8, f9: u8, f10: u8, f11: u8, f12: u8, f13: u8, f14: u8, f15: u8 }
     28 EmptyConst [b""] { a: u32 }
     31 TrailingEmptyArr [] { a: u8, b: [u8; 0] }
+    // --- field types outside the first table
+    32 BoolSeed [] { a: bool }
+    33 Packed [b"pk"] { a: PackedValue<u64>, b: PackedValue<i16>, c: PackedValue<u128> }
+    34 NestedRepr [] { a: Inner, b: u8 }
+    35 NestedPacked [] { a: InnerP, b: InnerP }
+    // --- zero-length components in front of / between other seeds (the bump slot is the LAST one)
+    36 EmptyMiddle [] { a: u8, b: [u8; 0], c: u16 }
+    37 EmptyFirst [] { a: [u8; 0], b: u8 }
+    38 AllEmpty [] { a: [u8; 0], b: [u8; 0] }
+    39 EmptyConstEmptyMiddle [b""] { a: u16, b: [u8; 0], c: Pubkey }
+    40 UnitNested [] { a: Zst, b: u32 }
+    // --- seeds that straddle the 32-byte chunks of the hash-oracle table differently
+    41 Straddle31x2 [] { a: [u8; 31], b: [u8; 2] }
+    42 Straddle1Key [] { a: [u8; 1], b: Pubkey }
+    43 Straddle17 [] { a: [u8; 17], b: [u8; 17], c: [u8; 30] }
+    // --- same concatenation, different split (must derive the same address)
+    44 Split3x5 [] { a: [u8; 3], b: [u8; 5] }
+    45 Split5x3 [] { a: [u8; 5], b: [u8; 3] }
+    46 Split8 [] { a: [u8; 8] }
+    47 Split4x0x4 [] { a: [u8; 4], b: [u8; 0], c: [u8; 4] }
+    // --- limits exactly at the boundary with maximal seeds
+    48 FourteenKeys [] { f0: Pubkey, f1: Pubkey, f2: Pubkey, f3: Pubkey, f4: Pubkey, f5: Pubkey, f6: Pubkey,
+                         f7: Pubkey, f8: Pubkey, f9: Pubkey, f10: Pubkey, f11: Pubkey, f12: Pubkey, f13: Pubkey }
+    49 FifteenKeys [] { f0: Pubkey, f1: Pubkey, f2: Pubkey, f3: Pubkey, f4: Pubkey, f5: Pubkey, f6: Pubkey, f7: Pubkey,
+                        f8: Pubkey, f9: Pubkey, f10: Pubkey, f11: Pubkey, f12: Pubkey, f13: Pubkey, f14: Pubkey }
+    50 Const32Arr32 [CONST32] { a: [u8; 32] }
+    51 Arr31Bool [] { a: [u8; 31], b: bool }
 }
+
+/// Groups of structs whose seeds can carry the same concatenated bytes in different splits.
+pub const RESPLIT_GROUPS: &[&[usize]] = &[&[44, 45, 46, 47], &[41, 42]];
 
 // sid 29 / 30: `Pubkey` and `u64` themselves are `GetSeeds` through the blanket
 // `impl<T: Seed + Debug> GetSeeds for T` (`vec![self.seed(), &[]]`).
